@@ -154,8 +154,8 @@ def property_failure(b, text):
 POW10 = [float("1e%d" % k) for k in range(-330, 310)]
 
 
-def gen_boundaries():
-    """deterministic boundary family (always included)"""
+def gen_boundaries(width=24):
+    """deterministic boundary family (always included); width = ulps around 10^k"""
     out = []
     sp = [0.0, -0.0, float("inf"), float("-inf"), float("nan"), 5e-324, -5e-324, 2.2250738585072014e-308,
           2.225073858507201e-308, 1.7976931348623157e308, -1.7976931348623157e308, 2.0 ** 53, 2.0 ** 53 - 1,
@@ -173,7 +173,7 @@ def gen_boundaries():
     # 10^k +- ulps, standard range densely, elsewhere sparsely
     for k in range(-6, 18):
         pb = f2b(float("1e%d" % k))
-        for j in list(range(-24, 25)):
+        for j in list(range(-width, width + 1)):
             out.append(pb + j)
     for k in list(range(-324, -6, 7)) + list(range(18, 309, 7)) + [-323, -308, -307, 308, 22, 23]:
         pb = f2b(float("1e%d" % k))
@@ -379,8 +379,8 @@ def main(argv):
 
     # ---- inputs: corpus, boundaries, random
     corpus = load_corpus()
-    bnd = gen_boundaries()
-    n_model = 40000 if thorough else 2500
+    bnd = gen_boundaries(200 if thorough else 24)
+    n_model = 120000 if thorough else 2500
     rnd = gen_random(rng, n_model)
     seen = set()
     inputs = []
@@ -455,7 +455,7 @@ def main(argv):
     validated += compared - len(mism)
 
     # ---- the property itself on the implementation (exact rationals), larger sample
-    n_search = 400000 if thorough else 40000
+    n_search = 1500000 if thorough else 40000
     sinputs = list(inputs)
     for b in gen_random(rng, n_search):
         b = canon(b)
@@ -504,7 +504,7 @@ def main(argv):
     res.coverage["evaluations"] = len(sinputs) + len(inputs) + len(rust_lst) + res.streams.get("ORACLE", {}).get("cases", 0)
     res.coverage["distinct_nontrivial"] = sum(1 for b in sinputs if not is_nan_bits(b) and not is_inf_bits(b)
                                               and (b & ~(1 << 63)) != 0)
-    res.coverage["rule"] = ("f64 bit patterns: fixed boundary family (thresholds 0.0001/1e15/2^53 +-12 ulps, 10^k +-24 "
+    res.coverage["rule"] = ("f64 bit patterns: fixed boundary family (thresholds 0.0001/1e15/2^53 +-12 ulps, 10^k +-24 (thorough: +-200) "
                             "ulps for k in -6..17, sparse 10^k elsewhere, 15-digit carry literals, specials) + seeded "
                             "random mix (uniform bits, standard-range mantissas, short decimals, integers, near powers of "
                             "ten, 16th-digit-5 carries, subnormals, huge); non-trivial = distinct finite non-zero inputs "
